@@ -1,5 +1,5 @@
 (* C06 property theorems: statements closed by [exact lemma] + Print Assumptions. *)
-From V Require Import Common.Base C06.TsTokens C06.SkipType C06.SkipMono C06.TypeGrammar C06.SkipProofs C06.SkipProofs6 C06.TypeArgsExpr C06.Erase C06.Enum.
+From V Require Import Common.Base C06.TsTokens C06.SkipType C06.SkipMono C06.TypeGrammar C06.SkipProofs C06.SkipProofs6 C06.TypeArgsExpr C06.Erase C06.Enum gen.TsTargetsGen C06.TsTarget.
 
 (* fuel is a model artefact: a result other than "out of fuel" never changes
    when more fuel is given (all 19 mutually recursive routines) *)
@@ -107,3 +107,23 @@ Theorem enum_pow_special_refuted :
   enum_values pow_witness = [VNum 1] /\ ~ SpecEnum [] None pow_witness [VNum 1] /\ SpecEnum [] None pow_witness [VNaN].
 Proof. exact enum_pow_witness. Qed.
 Print Assumptions enum_pow_special_refuted.
+
+(* class-field semantics selected by tsconfig: the table generated from the
+   switch over "target" in ParseTSConfigJSON is TypeScript's rule for the default
+   of useDefineForClassFields (true iff target >= ES2022, ESNext included), for
+   EVERY target string (recognised names in any letter case; every other string is
+   unrecognised on both sides) *)
+Theorem use_define_default_is_typescript_rule : forall name,
+  match go_target name, spec_year name with
+  | Some above, Some y => above = ts_default_use_define y
+  | None, None => True
+  | _, _ => False
+  end.
+Proof. exact go_target_is_rule. Qed.
+Print Assumptions use_define_default_is_typescript_rule.
+
+(* ... and combined with an explicit useDefineForClassFields as in parseClass *)
+Theorem effective_use_define_is_typescript_rule : forall explicit target,
+  effective_define explicit (match target with Some n => go_target n | None => None end) = spec_define explicit target.
+Proof. exact effective_define_is_rule. Qed.
+Print Assumptions effective_use_define_is_typescript_rule.
